@@ -95,6 +95,22 @@ Proof.
   - rewrite repeat_length. apply Hb. apply nth_In. exact Hi.
 Qed.
 
+(* the same with negative axis values (Python's negative indexing of perm_inv) *)
+Definition normz (n : nat) (j : Z) : nat := Z.to_nat (if (j <? 0)%Z then (j + Z.of_nat n)%Z else j).
+Theorem invert_perm_z_spec perm i : NoDup (map (normz (length perm)) perm) ->
+  (forall j, In j perm -> (- Z.of_nat (length perm) <= j < Z.of_nat (length perm))%Z) -> i < length perm ->
+  nth (normz (length perm) (nth i perm 0%Z)) (invert_perm_z perm) 0 = i.
+Proof.
+  intros ND Hb Hi. unfold invert_perm_z. fold (normz (length perm)).
+  set (p := map (normz (length perm)) perm).
+  assert (Hl : length p = length perm) by (unfold p; apply map_length).
+  replace (normz (length perm) (nth i perm 0%Z)) with (nth i p 0).
+  - apply invert_perm_spec; [exact ND| |now rewrite Hl].
+    intros j Hj. unfold p in Hj. apply in_map_iff in Hj as (z & <- & Hz). specialize (Hb _ Hz). rewrite Hl. unfold normz.
+    destruct (Z.ltb_spec z 0); lia.
+  - unfold p. rewrite (nth_indep _ 0 (normz (length perm) 0%Z)) by (rewrite map_length; exact Hi). apply map_nth.
+Qed.
+
 (* ---------------- prefetch_to_device ---------------- *)
 Definition gexp (s : gstate) : list ev :=
   map Item (g_queue s ++ g_src s) ++ [if g_error s || g_fail s then Err else Stop].
